@@ -262,13 +262,30 @@ func inprocTable(r *vh.Run, i int) {
 
 // ---------------------------------------------------------------- (c) (e): the binary
 
+var (
+	portMu   sync.Mutex
+	portSeen = map[int]bool{}
+)
+
+// freePort returns a port that is free now and that this process has not handed out before (trials run side by side:
+// the kernel gives the same free port to two callers until one of them binds it).
 func freePort() int {
-	l, err := net.Listen("tcp", "127.0.0.1:0")
-	if err != nil {
-		return 0
+	for k := 0; k < 50; k++ {
+		l, err := net.Listen("tcp", "127.0.0.1:0")
+		if err != nil {
+			return 0
+		}
+		port := l.Addr().(*net.TCPAddr).Port
+		l.Close()
+		portMu.Lock()
+		dup := portSeen[port]
+		portSeen[port] = true
+		portMu.Unlock()
+		if !dup {
+			return port
+		}
 	}
-	defer l.Close()
-	return l.Addr().(*net.TCPAddr).Port
+	return 0
 }
 
 type proc struct {
@@ -327,7 +344,16 @@ func launch(bin string, args ...string) (*proc, error) {
 			}
 		}
 		if up {
-			return p, nil
+			// the answer may have come from ANOTHER server: two launches that run side by side can be handed the same
+			// free port, one process binds it, the other exits with "address already in use" - and both see /v2/
+			// answered.  A process that has exited is not the one that answered.
+			time.Sleep(30 * time.Millisecond)
+			select {
+			case <-p.done:
+				up = false
+			default:
+				return p, nil
+			}
 		}
 		exited := false
 		select {
